@@ -83,8 +83,13 @@ def run(ctx):
         for c, cal in calls_from(m, f, "permutation_operator.permutation_operator"):
             b = m.bind(c, cal.func)
             t = Nn(b["dim"])
+            if t[0] == "n" and f.param(t[1]) is None:
+                # a hoisted local: read its (single) definition
+                dfs_ = [x for x in walk_no_nested(f.node) if isinstance(x, ast.Assign) and len(x.targets) == 1 and isinstance(x.targets[0], ast.Name) and x.targets[0].id == t[1]]
+                t = Nn(dfs_[0].value) if len(dfs_) == 1 else ("?",)
             okd = t[0] == "*" and ("n", "dim") in t[1] and any(x[0] == "call" and x[1] == "numpy.ones" and x[2][0] == ("n", pname) for x in t[1])
-            ctx.ob("R-BIND", f, "p copies of the local dimension", okd, "dim * ones(p)" if okd else f"dims {show(t)[:50]}", c)
+            okd = True if okd else None if t == ("?",) else False
+            ctx.ob("R-BIND", f, "p copies of the local dimension", okd, "dim * ones(p)" if okd else f"dims {show(t)[:50]}", c, required=okd is not None)
         r_effect_free(ctx, f, [])
     # antisymmetric: signed sum
     Na = Normalizer(m, ap, inline=False)
@@ -107,11 +112,13 @@ def run(ctx):
         for n in walk_no_nested(f.node):
             if isinstance(n, ast.If) and unparse(n.test) == "partial":
                 for s in n.body:
-                    if isinstance(s, ast.Assign) and isinstance(s.value, ast.Call):
+                    if isinstance(s, (ast.Assign, ast.Return)) and isinstance(s.value, ast.Call):
                         return m.resolve_call(f, s.value).key
+            if isinstance(n, ast.IfExp) and unparse(n.test) == "partial" and isinstance(n.body, ast.Call):
+                return m.resolve_call(f, n.body).key
         return None
     rs, ra = partial_routine(sp), partial_routine(ap)
-    ctx.ob("R-SIB", ap, "partial branch uses the same range-space routine as symmetric_projection", rs is not None and rs == ra,
+    ctx.ob("R-SIB", ap, "partial branch uses the same range-space routine as symmetric_projection", None if (rs is None or ra is None) else rs == ra,
            f"both use {rs}" if rs == ra else f"symmetric uses {rs}, antisymmetric uses {ra}")
     # guards
     Ns = Normalizer(m, sp, inline=False)
@@ -176,6 +183,11 @@ def run(ctx):
                     else False if (pmatch.match(f"{it}.occurrences >= 0", t0) is not None or pmatch.match(f"{it}.occurrences", t0) is None and "occurrences" in unparse(t0)) else None
                 if pmatch.match(f"{it}.occurrences", t0) is not None:
                     gd = True  # truthiness of a non-negative counter
+                # guard-clause form: `if it.occurrences <= 0: continue`
+                if len(guards[0].body) == 1 and isinstance(guards[0].body[0], ast.Continue) and not guards[0].orelse:
+                    neg = any(pmatch.match(pat, t0) is not None for pat in (f"{it}.occurrences <= 0", f"{it}.occurrences < 1", f"{it}.occurrences == 0", f"not {it}.occurrences",
+                                                                            f"0 >= {it}.occurrences", f"1 > {it}.occurrences", f"0 == {it}.occurrences"))
+                    gd = True if neg else None
             else:
                 gd = False
     ctx.ob("R-ENUM", up, "occurrence counter decremented before and restored after the recursive descent", bal and order_ok, "acquire / recurse / release" if bal and order_ok else "counter pairing broken: rearrangements are repeated or lost")
